@@ -139,3 +139,22 @@ Proof.
   apply filter_In. split; [|reflexivity]. apply filter_In. split; [apply get_In; exact Hg|].
   unfold is_due. simpl. apply Z.eqb_eq. exact Hk.
 Qed.
+
+(** a drained plain request has its random number, stamped with the destination height *)
+Lemma get_set_all ids v : forall m i, In i ids \/ get i m = Some v -> get i (set_all ids v m) = Some v.
+Proof.
+  induction ids as [|j ids IH]; simpl; intros m i H; [destruct H as [[]|H]; exact H|].
+  apply IH. destruct H as [[->|H]|H]; [right; apply get_set_same|left; exact H|right].
+  rewrite get_set_cases. destruct (eq_dec i j); [reflexivity|exact H].
+Qed.
+
+Theorem plain_requests_fulfilled s t fails s' k c :
+  begin_block s t fails = Some s' -> get k (rq s) = Some (false, c) -> fst k = height s ->
+  get (snd k) (randoms s') = Some (height s).
+Proof.
+  unfold begin_block. replace (height s + 1 - 1) with (height s) by lia.
+  destruct (negb _ && (t =? 0)); [discriminate|]. intros E Hg Hk. inversion E; subst; clear E. simpl.
+  apply get_set_all. left. apply in_map_iff. exists (k, (false, c)). split; [reflexivity|].
+  apply filter_In. split; [|reflexivity]. apply filter_In. split; [apply get_In; exact Hg|].
+  unfold is_due. simpl. apply Z.eqb_eq. exact Hk.
+Qed.
